@@ -148,15 +148,28 @@ pub fn check_writer(e: En, w: WWord, wrap: Wrap, ops: &[W14], src_image: &[u8], 
 pub enum R14 {
     Op(ROp),
     CopyTo(u64),
+    /// copy into a destination that has room for this many 16-bit words only: the copy fails part-way
+    CopyToFull(u64, usize),
 }
 fn r14_to_string(ops: &[R14]) -> String {
-    ops.iter().map(|o| match o { R14::Op(r) => r.to_string(), R14::CopyTo(n) => format!("ct:{}", n) }).collect::<Vec<_>>().join(",")
+    ops.iter().map(|o| match o { R14::Op(r) => r.to_string(), R14::CopyTo(n) => format!("ct:{}", n), R14::CopyToFull(n, c) => format!("cx:{}:{}", n, c) }).collect::<Vec<_>>().join(",")
 }
 fn parse_r14(s: &str) -> Vec<R14> {
     if s == "-" || s.is_empty() {
         return vec![];
     }
-    s.split(',').map(|t| if let Some(n) = t.strip_prefix("ct:") { R14::CopyTo(n.parse().unwrap()) } else { R14::Op(ROp::parse(t)) }).collect()
+    s.split(',')
+        .map(|t| {
+            if let Some(n) = t.strip_prefix("ct:") {
+                R14::CopyTo(n.parse().unwrap())
+            } else if let Some(r) = t.strip_prefix("cx:") {
+                let (n, c) = r.split_once(':').unwrap();
+                R14::CopyToFull(n.parse().unwrap(), c.parse().unwrap())
+            } else {
+                R14::Op(ROp::parse(t))
+            }
+        })
+        .collect()
 }
 
 pub fn check_reader(e: En, kind: RKind, wrap: Wrap, image: &[u8], ops: &[R14], rep: &mut Report) {
@@ -198,6 +211,38 @@ pub fn check_reader(e: En, kind: RKind, wrap: Wrap, image: &[u8], ops: &[R14], r
                     return;
                 }
                 pos = np;
+            }
+            R14::CopyToFull(n, cap) => {
+                // the destination fills up: the copy must fail, and whatever the wrapper then says it
+                // has read must be what the wrapped reader has consumed
+                if pos + *n as usize > bits.len() || (*n as usize) < 16 * (cap + 2) + 128 {
+                    continue;
+                }
+                let mut small = make_writer(WCfg { e, w: WWord::U16, be: WBackend::Rec(Some(*cap)) });
+                let got = guard(|| h.r.copy_to(small.w.as_mut(), *n));
+                rep.eval(1);
+                rep.case(&(wrap, e, kind, "r", "copy_to_full", i.min(3)));
+                let _ = guard_v(move || drop(small));
+                if got.is_ok() {
+                    rep.violation(&format!("{}|copy_to|error-not-reported", sigbase), || format!("copy of {} bits into a destination with room for {} bits returned {}", n, 16 * cap, got.show()), kvf);
+                    return;
+                }
+                if let Out::Panic(p) = &got {
+                    rep.violation(&format!("{}|copy_to_full|panic[{}]", sigbase, panic_kind(p)), || p.clone(), kvf);
+                    return;
+                }
+                if let (Some(c), Some(Ok(p))) = (h.r.counter(), h.r.bit_pos()) {
+                    if c != p {
+                        rep.violation(
+                            &format!("{}|copy_to_full|counter", sigbase),
+                            || format!("after a copy of {} bits that failed part-way (destination full after {} bits) bits_read = {} but the wrapped reader is at bit {}", n, 16 * cap, c, p),
+                            kvf,
+                        );
+                    }
+                    rep.count("failed_copies_with_counter_checked", 1);
+                }
+                rep.sample(kvf);
+                return;
             }
             R14::CopyTo(n) => {
                 if pos + *n as usize > bits.len() {
@@ -348,6 +393,16 @@ pub fn run(ctx: &Ctx) -> Report {
                     }
                 }
                 check_reader(e, kind, wrap, &img, &ops, rep);
+                // a prefix of the same history, then a copy that the destination cannot hold
+                if hix % 4 == 0 {
+                    let big = random_image(&mut rng, pat, 8 * 64, e);
+                    let cut = rng.below(4) as usize;
+                    let mut ops2: Vec<R14> = vec![R14::Op(ROp::Read(rng.below(65) as usize)), R14::Op(ROp::Peek(1 + rng.below(16) as usize)), R14::Op(ROp::Skip(rng.below(40) as usize))];
+                    ops2.truncate(cut);
+                    let cap = rng.below(9) as usize;
+                    ops2.push(R14::CopyToFull(16 * (cap as u64 + 2) + 128 + rng.below(700), cap));
+                    check_reader(e, kind, wrap, &big, &ops2, rep);
+                }
             }
         }
     })
